@@ -7,7 +7,7 @@ import (
 
 var urlSchemes = []string{"web+https", "git+http", "x+mailto", "https+x", "svn+ssh", "http.s", "https-x", "shttp", "xhttps", "http", "https", "mailto", "ftp", "javascript", "vbscript", "data", "file", "tel", "x-app", "HTTP", "JaVaScRiPt", "Https", "livescript", "mhtml", "view-source", "ws", "blob", "about", "h.t-t+p", "1http", "ht tp", "http ", ""}
 
-var urlHosts = []string{"[2001:db8::ff]:80", "[2001:db8::ff]", "[::1]:443", "[fe80::1%25eth0]", "example.org:80", "example.org:443", "example.org:", "EXAMPLE.ORG:0080", "example.org", "EXAMPLE.org", "cdn.example.net", "user:pw@example.org", "[::1]", "xn--e1afmkfd.example", "éxample.org", "example.org:8080", "", "127.0.0.1", "a_b.example", "exa mple.org", "example.org.", "%65xample.org", "evil.example"}
+var urlHosts = []string{"[::1%25a]é]", "[::1]é", "[::1%25a]x]", "[fe80::1%25é]", "[2001:db8::ff]:80", "[2001:db8::ff]", "[::1]:443", "[fe80::1%25eth0]", "example.org:80", "example.org:443", "example.org:", "EXAMPLE.ORG:0080", "example.org", "EXAMPLE.org", "cdn.example.net", "user:pw@example.org", "[::1]", "xn--e1afmkfd.example", "éxample.org", "example.org:8080", "", "127.0.0.1", "a_b.example", "exa mple.org", "example.org.", "%65xample.org", "evil.example"}
 
 var urlPaths = []string{"", "/", "/a/b.png", "/a b", "/a%20b", "/%zz", "/a/../b", "/a;p=1", "/é", "/\x00", "/<script>", "/a\"b", "/a'b", "/a\\b", "//double", "/a:b", "a:b", "rel/path", "./x", "../x", "/ok/file", "/a\tb", "/a\nb"}
 
@@ -25,7 +25,7 @@ var dataURIs = []string{
 
 // HostileURL returns a URL-ish string from the obfuscation families of §2.4.
 // urlSoup: the pieces net/url and browsers disagree about, in any order.
-var urlSoup = []string{"%2f", "%2F", "/", "\\", ".", "..", ":", "@", "?", "#", "[", "]", "é", "%", "%25", "%3a", "a", "b", "//", "%5c", "%2e", "%00", "%20", "+", "&", "=", ";", "~", "'", "\"", "<", "%3f", "%23", "http", "x.png", "1", "%2f%2f", "/%2f", "%2F/", "////", "///"}
+var urlSoup = []string{"\u00a0", "\u2028", "\u3000", "\u0085", "[::1", "%25a]", "]", "%2f", "%2F", "/", "\\", ".", "..", ":", "@", "?", "#", "[", "]", "é", "%", "%25", "%3a", "a", "b", "//", "%5c", "%2e", "%00", "%20", "+", "&", "=", ";", "~", "'", "\"", "<", "%3f", "%23", "http", "x.png", "1", "%2f%2f", "/%2f", "%2F/", "////", "///"}
 
 func HostileURL(r *rand.Rand) string {
 	switch r.Intn(15) {
